@@ -55,3 +55,12 @@ def run(c):
         return {"kind": kind, "coarsening": rec.get("coarsening"), "relax": rec.get("relax"), "oi_gt1": rec.get("oi_gt1"), "ncycle": rec.get("ncycle"),
                 "levels_ge3": rec.get("levels", 0) >= 3, "nan": nan}
     c.judge(res, "cycle operator", sigfn=sig, stage="cycle-obs")
+    # (c) the same observations with the hierarchy built and applied by 17 threads (above the 16-thread switch of the
+    #     sparse product and above the 4-thread switch of the level-scheduled sweeps): the cycle is the same kind of operator
+    t = c.record(rc, ["obs"], out=c.path("obs17.ndjson"), timeout=1500, env={"OMP_NUM_THREADS": 17, "VERIF_SMALL": 1, "VERIF_REPS": 72 if c.thorough() else 12, "VERIF_BREPS": 4 if c.thorough() else 1})
+    res = c.tlc_trace("C02Trace", t, label="observations@17threads")
+    for ln in res["lines"]:
+        if '"k":"cycobs"' in ln:
+            r = json.loads(ln)
+            c.nontrivial.add(("obs17", r["coarsening"], r["relax"], r["ncycle"], r["npre"], r["npost"], r["pre_cycles"], r["levels"], r["n"]))
+    c.judge(res, "cycle operator", sigfn=sig, stage="cycle-obs")
